@@ -181,3 +181,42 @@ func c11RacePass(tier string) {
 	}
 	fmt.Fprintf(os.Stderr, "RACEPASS-ITERATIONS %d\n", total)
 }
+
+// bound Go functions that take the evaluation context, called by several evaluations at the same
+// time, each under its own context: every call must be entered with its own evaluation's context
+type c20rpKey struct{}
+
+func c20RacePass(tier string) {
+	ns := env.NewEnv()
+	call.CallOverrideFN(ns, "cf0", func(ctx context.Context) (types.MalType, error) { return ctx.Value(c20rpKey{}), nil })
+	call.CallOverrideFN(ns, "cf1", func(ctx context.Context, a types.MalType) (types.MalType, error) { return ctx.Value(c20rpKey{}), nil })
+	call.CallOverrideFN(ns, "cfv", func(ctx context.Context, rest ...types.MalType) (types.MalType, error) { return ctx.Value(c20rpKey{}), nil })
+	call.CallOverrideFN(ns, "cfe", func(ctx context.Context, a int) error { return nil })
+	total := 0
+	var mismatch sync.Map
+	for _, text := range []string{"(cf0)", "(cf1 5)", "(cfv 1 2)", "(cfv)", "(do (cfe 1) (cf0))"} {
+		ast := lx.MustRead(text)
+		for it := 0; it < 8*raceIters(tier); it++ {
+			var bodies []func()
+			for g := 0; g < 4; g++ {
+				g := g
+				ctx := context.WithValue(context.Background(), c20rpKey{}, g)
+				bodies = append(bodies, func() {
+					for k := 0; k < 50; k++ {
+						res, err, p := lx.Eval(ctx, ast, ns)
+						if err != nil || p != nil || res != g {
+							mismatch.Store(text, fmt.Sprint(res, err, p))
+						}
+					}
+				})
+			}
+			raceRun(bodies)
+			total++
+		}
+	}
+	mismatch.Range(func(k, v any) bool {
+		fmt.Fprintf(os.Stderr, "RACEPASS-VIOLATION a bound function was entered with another evaluation's context (or failed) under concurrent calls\n")
+		return false
+	})
+	fmt.Fprintf(os.Stderr, "RACEPASS-ITERATIONS %d\n", total)
+}
